@@ -32,7 +32,7 @@ TERM = {
     "quick":    {"N3": "2000", "N4": "300", "BMin": "6000"},
     "thorough": {"N3": "0", "N4": "20000", "BMin": "6000"},
 }
-N_OPS = 162    # entry points bound in Shapes.tla (vacuity: every one must occur, accepted and rejected)
+N_OPS = 196    # entry points bound in Shapes.tla (vacuity: every one must occur, accepted and rejected)
 
 
 # ----------------------------------------------------------------------------- part A
@@ -72,6 +72,8 @@ def part_a(ctx, binary):
     total_ops = {"AppendScalar", "AppendVector", "T", "Tip", "SetIdentity", "AsVector", "AsConstVector", "RAlloc",
                  "svd", "householderBidiagonalization", "gramSchmidt", "Jacobian", "Hessian"}
     for op, cl in per_op.items():
+        if op.startswith("opt.newton.HessianModification.") or op.startswith("opt.NumericEstimator.Method."):
+            continue        # one value per op; both classes are required over the family below
         if ".alias." in op:
             if cl != {"any"}:
                 raise vlib.Infra("unexpected classes for %s: %s" % (op, sorted(cl)))
@@ -86,6 +88,10 @@ def part_a(ctx, binary):
             continue
         if "ok" not in cl or (op not in total_ops and "reject" not in cl):
             raise vlib.Infra("vacuous case set for %s: classes %s" % (op, sorted(cl)))
+    for fam in ("opt.newton.HessianModification.", "opt.NumericEstimator.Method."):
+        cls = set().union(*[cl for op, cl in per_op.items() if op.startswith(fam)])
+        if cls != {"ok", "reject"}:
+            raise vlib.Infra("vacuous option value family %s: %s" % (fam, sorted(cls)))
     ctx.log("Shapes: %d cases for %d entry points" % (res.json_count, len(per_op)))
     summary, nviol = run_shapes(ctx, binary, cases)
     cl = summary["classes"]
@@ -157,7 +163,7 @@ def part_b(ctx, binary):
             c = json.loads(line)
             classes[c["class"]] = classes.get(c["class"], 0) + 1
     need = {"int1x1", "int2x2", "int3x3", "int4x4", "zero", "identity", "nilpotent", "jordan", "rank1", "repeated", "complex",
-            "companion", "nonfinite", "nan", "posinf", "error", "constraints_never", "constraints_only_start",
+            "companion", "nonfinite", "nan", "posinf", "error", "constraints_never", "constraints_only_start", "constraints_halfspace",
             "zero_gradient", "epsilon_unattainable", "newton_cycle", "domain_error", "domain_nan", "ls_le", "ls_lt", "ls_never", "ls_only_zero"}
     if not need <= set(classes):
         raise vlib.Infra("input classes missing: %s" % sorted(need - set(classes)))
@@ -222,7 +228,7 @@ def part_b(ctx, binary):
 
 TERM_ROUTINES = ["qrAlgorithm", "qrAlgorithmSymmetric", "eigensystem", "eigensystemSymmetric", "svd", "msqrt", "msqrtInv",
                  "hessenbergReduction", "householderBidiagonalization", "householderTridiagonalization", "gramSchmidt",
-                 "lineSearch", "rprop", "gradientDescent", "newtonRoot", "newtonCrit", "newtonMin", "bfgs", "adam", "saga"]
+                 "lineSearch", "rprop", "gradientDescent", "newtonRoot", "newtonCrit", "newtonMin", "bfgs", "adam", "saga", "rpropGradient", "adamGradient"]
 
 
 def run(ctx):
